@@ -51,6 +51,29 @@ Lemma effect_readonly_identity :
   forall copies w m, w <> Arxml -> w <> Fibex -> w <> Kcd -> effect copies w m = m.
 Proof. intros copies w m H1 H2 H3. destruct w; try reflexivity; contradiction. Qed.
 
+
+(* one lemma per read-only / copying writer (props/C14.v only says `exact`) *)
+Lemma effect_identity_csv : forall copies m, effect copies Csv m = m.
+Proof. intros; apply effect_readonly_identity; discriminate. Qed.
+Lemma effect_identity_dbc : forall copies m, effect copies Dbc m = m.
+Proof. intros; apply effect_readonly_identity; discriminate. Qed.
+Lemma effect_identity_dbf : forall copies m, effect copies Dbf m = m.
+Proof. intros; apply effect_readonly_identity; discriminate. Qed.
+Lemma effect_identity_json : forall copies m, effect copies Json m = m.
+Proof. intros; apply effect_readonly_identity; discriminate. Qed.
+Lemma effect_identity_json_all : forall copies m, effect copies JsonAll m = m.
+Proof. intros; apply effect_readonly_identity; discriminate. Qed.
+Lemma effect_identity_json_native : forall copies m, effect copies JsonNative m = m.
+Proof. intros; apply effect_readonly_identity; discriminate. Qed.
+Lemma effect_identity_scapy : forall copies m, effect copies Scapy m = m.
+Proof. intros; apply effect_readonly_identity; discriminate. Qed.
+Lemma effect_identity_sym : forall copies m, effect copies Sym m = m.
+Proof. intros; apply effect_readonly_identity; discriminate. Qed.
+Lemma effect_identity_wireshark : forall copies m, effect copies Wireshark m = m.
+Proof. intros; apply effect_readonly_identity; discriminate. Qed.
+Lemma effect_identity_xls : forall copies m, effect copies Xls m = m.
+Proof. intros; apply effect_readonly_identity; discriminate. Qed.
+
 Lemma after_exports_identity : forall ws m, after_exports true ws m = m.
 Proof.
   unfold after_exports. induction ws as [|w ws IH]; intros m; cbn [fold_left]; [reflexivity|].
@@ -200,6 +223,12 @@ Proof.
   unfold after_exports. induction ws as [|w ws IH]; intros m Hp Hf Hs; cbn [fold_left]; [reflexivity|].
   rewrite effect_unfixed_partial by assumption. apply IH; assumption.
 Qed.
+
+Lemma second_export_unfixed_partial_lemma :
+  forall (Bytes : Type) (render : writer -> matrix -> Bytes) (ws : list writer) (b : writer) (m : matrix),
+    receivers_propagated m -> NoDup (frame_names m) -> NoDup (signal_names m) ->
+    render b (after_exports false ws m) = render b m.
+Proof. intros Bytes render ws b m Hp Hf Hs. rewrite (after_exports_unfixed_partial ws m Hp Hf Hs). reflexivity. Qed.
 
 (* witnesses (replayed on the implementation by harness/p_c14.py) *)
 Definition wit_unpropagated : matrix := [mkFrame [70] [1] [] [mkSignal 5 [2; 3]]].
